@@ -142,10 +142,10 @@ def check_concrete(c, args, fn=None):
                                                f"{type(e).__name__}: {e}"}
         if not isinstance(r, dict):
             r = {"post": r}
-        for name, v in r.items():
-            if not bool(_and(v)):
-                return {"status": "violation", "clause": f"post:{name}", "ghosts": g, "observed": enc(result),
-                        "expected": f"postcondition clause '{name}' of {c.key}"}
+        failed = [name for name, v in r.items() if not bool(_and(v))]
+        if failed:
+            return {"status": "violation", "clause": f"post:{failed[0]}", "all_clauses": [f"post:{n}" for n in failed], "ghosts": g,
+                    "observed": enc(result), "expected": f"postcondition clause(s) {failed} of {c.key}"}
     return {"status": "ok", "result": enc(result)}
 
 
@@ -182,9 +182,12 @@ def run_bounded(c, tier, seed, limit_s=None):
             samples.append({"args": enc(args), "outcome": r.get("raised") or r.get("result")})
         if r["status"] == "violation":
             r["args"] = enc(args)
-            per_clause[r.get("clause")] = per_clause.get(r.get("clause"), 0) + 1
-            if per_clause[r.get("clause")] <= 5:
-                violations.append(r)
+            for cl in r.get("all_clauses") or [r.get("clause")]:
+                per_clause[cl] = per_clause.get(cl, 0) + 1
+                if per_clause[cl] <= 5:
+                    v = dict(r)
+                    v["clause"] = cl
+                    violations.append(v)
             if len(per_clause) > 20:
                 break
         if limit_s and time.time() - t0 > limit_s:
